@@ -68,7 +68,8 @@ func ringPedersenKey(p, q *big.Int, r *vh.Rng) *intcom.CommitmentKey {
 func zint(v int64) *num.Int { return num.Z().FromInt64(v) }
 
 func (h *harness) runLight(c *niCase, r *vh.Rng, simulate func() string) {
-	c.light = true
+	// enc and encelg verify in a few tens of milliseconds: full treatment (all leaves)
+	c.light = !(strings.HasPrefix(c.id, "cggmp21-enc/") || strings.HasPrefix(c.id, "cggmp21-encelg/"))
 	t0 := time.Now()
 	if simulate != nil {
 		h.res.Count("sigma-simulate/"+c.id, "simulate "+c.id, true)
@@ -76,7 +77,7 @@ func (h *harness) runLight(c *niCase, r *vh.Rng, simulate func() string) {
 			h.prop("sigma-simulate/"+c.id, "simulate "+c.id, msg, "simulator transcripts verify")
 		}
 	}
-	h.niCase(c, fiatshamir.Name, 0, r, false, 3)
+	h.niCase(c, fiatshamir.Name, 0, r, false, 16)
 	if os.Getenv("C08_TIMING") != "" {
 		fmt.Fprintf(os.Stderr, "%s %.1fs\n", c.id, time.Since(t0).Seconds())
 	}
@@ -104,6 +105,10 @@ func (h *harness) cggmp21(keys map[string]*paillier.SecretKey, primes map[string
 		return must(sf.FromBytesBEReduce(m.Bytes()))
 	}
 	guard := func(name string, f func()) {
+		// quick tier: only the proofs whose single verification takes well under a second
+		if !(h.thorough || h.a.Search) && name != "enc" && name != "encelg" {
+			return
+		}
 		if only := os.Getenv("C08_CG"); only != "" && !strings.Contains(","+only+",", ","+name+",") {
 			return
 		}
